@@ -96,6 +96,11 @@ def run(ck):
                 false_t = [tb for v, tb in st["t"] if v == "0"]
                 if false_t:
                     tests.append((sb, st["o"], false_t[0]))
+            elif has_call_origin(o, r"Option::<T>::is_none$") and ("field", "value") in f.origins(st["d"], deep=True):
+                # is_none() true is the same information as is_some() false: record with the targets swapped
+                false_t = [tb for v, tb in st["t"] if v == "0"]
+                if false_t:
+                    tests.append((sb, false_t[0], st["o"]))
         clears = [bi for bi in f.reachable() for s2 in f.stmts(bi) if "lhs" in s2 and any(p.endswith(":value") for p in s2["lhs"][1])
                   and ((s2["rv"]["k"] == "agg" and s2["rv"].get("variant") == "None") or any(a[0] == "agg" and a[1].endswith("Option::None") for a in f.origins(s2["rv"].get("a", {}) if s2["rv"]["k"] == "use" else 0)))]
         for n, (bi, t) in enumerate(rem):
@@ -136,7 +141,7 @@ def run(ck):
             if bi not in f.reach_from(f.succ(bi)):
                 continue
             cond = reached_under(f, bi, same_loop=True)
-            ok = any(c[0] == "is_empty" and "children" in c[1] and c[2] for c in cond) and any(c[0] == "is_some" and "value" in c[1] and not c[2] for c in cond)
+            ok = any(c[0] == "is_empty" and "children" in c[1] and c[2] for c in cond) and any((c[0] == "is_some" and "value" in c[1] and not c[2]) or (c[0] == "is_none" and "value" in c[1] and c[2]) for c in cond)
             ck.ob("DOM", f.path, "ancestor-removed-only-if-empty-and-unlocked#%d" % n, ok,
                   "an ancestor lock-trie node is freed only when it has no children left and holds no lock" if ok else
                   "the back-up loop frees an ancestor under %s: a node that still has children (locks below it) or a lock of its own can be freed" % [(c[0], c[2]) for c in cond], f.loc(bi))
